@@ -69,8 +69,7 @@ def tlc(module, cfg_text, name, workers=None, extra_env=None, timeout=3000, java
         cmd += ["-simulate", simulate]
     cmd += [module + ".tla"]
     env = dict(extra_env or {})
-    if java_opts:
-        env["JAVA_TOOL_OPTIONS"] = java_opts
+    env["JAVA_TOOL_OPTIONS"] = java_opts or "-Xss64m"
     p = sh(cmd, cwd=SPEC, env=env, timeout=timeout, check=False)
     shutil.rmtree(meta, ignore_errors=True)
     out = p.stdout
@@ -156,18 +155,48 @@ SLICES = {
     "sig": {"module": "MC_sig", "invariants": ["C01", "C02", "Refines", "Export"],
             "consts": {"quick": {"K": 3, "Dev": "{}", "MaxL": 2}, "thorough": {"K": 4, "Dev": "{}", "MaxL": 3}},
             "flip": {"quick": 5, "thorough": 1}},
+    "proof": {"module": "MC_proof", "invariants": ["C03", "C04", "Refines", "Export"],
+              "consts": {"quick": {"K": 3, "Dev": "{}", "MaxL": 2, "Rich": "FALSE", "Mode": '"honest"'},
+                         "thorough": {"K": 4, "Dev": "{}", "MaxL": 3, "Rich": "TRUE", "Mode": '"honest"'}},
+              "flip": {"quick": 0, "thorough": 0}},
+    "proof_adv": {"module": "MC_proof", "invariants": ["C03", "C04", "Refines", "Export"],
+                  "consts": {"quick": {"K": 3, "Dev": "{}", "MaxL": 2, "Rich": "FALSE", "Mode": '"adv"'},
+                             "thorough": {"K": 4, "Dev": "{}", "MaxL": 3, "Rich": "FALSE", "Mode": '"adv"'}},
+                  "flip": {"quick": 41, "thorough": 3}},
+    "update": {"module": "MC_update", "invariants": ["C01", "C02", "C12", "C12scn", "Refines", "Export"],
+               "consts": {"quick": {"K": 3, "Dev": "{}", "MaxL": 2, "Depth": 2, "CrossSuite": "FALSE"},
+                          "thorough": {"K": 4, "Dev": "{}", "MaxL": 2, "Depth": 3, "CrossSuite": "TRUE"}},
+               "flip": {"quick": 0, "thorough": 0}},
+    "blind": {"module": "MC_blind", "invariants": ["C05", "C06", "C02", "C04", "Refines", "Export"],
+              "consts": {"quick": {"K": 3, "Dev": "{}", "MaxL": 1, "MaxM": 1, "Mode": '"honest"'},
+                         "thorough": {"K": 4, "Dev": "{}", "MaxL": 2, "MaxM": 2, "Mode": '"honest"'}},
+              "flip": {"quick": 0, "thorough": 0}},
+    "blind_adv": {"module": "MC_blind", "invariants": ["C05", "C06", "C02", "C04", "Refines", "Export"],
+                  "consts": {"quick": {"K": 3, "Dev": "{}", "MaxL": 1, "MaxM": 1, "Mode": '"adv"'},
+                             "thorough": {"K": 4, "Dev": "{}", "MaxL": 2, "MaxM": 2, "Mode": '"adv"'}},
+                  "flip": {"quick": 41, "thorough": 3}},
 }
 
-# which slices / drivers decide which property, and which replay tallies count for it
 HOOK_COMMITS = ["5b39d5a"]
+
+MC_TEXT = "TLC checks the invariant(s) exhaustively on the bounded slice(s) listed in the evidence (constants recorded there), in the toy interpretation of the mechanical transcription of the operations (Mech) against the provenance-level statement of the property (Prov); every behaviour of the slice is exported and replayed into the real library under several concretisations of its abstract octets, where decisions, lengths and (for deterministic operations) octets must agree with the specification; "
 
 PROPS = {
     "C01": {"slices": ["sig"], "tally": ["C01"], "title": "BBS signature completeness",
-            "level_text": "TLC checks exhaustively, on the bounded slice `sig` (2 suites, headers absent/empty/non-empty, every message vector over 3 atoms up to MaxL, absent-vs-empty presentations, encode/decode round trip), that the mechanical transcription of sign/verify accepts everything the provenance says was signed (invariant C01, refinement Mech = Prov). Every behaviour of the slice is replayed into the real library under several concretisations of the abstract octets (lengths 1..1024) and large-shape drivers record traces that TLC validates against the same specification."},
+            "level_text": MC_TEXT + "slice `sig`: 2 suites, headers absent/empty/non-empty, every message vector over 3 atoms (one the empty message) up to MaxL, absent-vs-empty presentations, encode/decode round trip."},
     "C02": {"slices": ["sig"], "tally": ["C02"], "title": "BBS signature binding",
-            "level_text": "TLC checks exhaustively on slice `sig` that verification is accepted only for the exact provenance (invariant C02) for every single edit of the message vector, every other header, the other key, the other suite, the blind interface and tampered encodings; each behaviour is replayed into the library, tampered cases additionally with every single-bit flip of the affected fields of the 80-octet encoding (all 640 bits in the thorough tier)."},
+            "level_text": MC_TEXT + "slice `sig`: every single edit of the message vector (change, insert, delete, swap), every other header, the other key, the other suite, the blind interface, and tampered encodings - replayed with single-bit flips of the affected fields of the 80 octets (all 640 bits in the thorough tier)."},
+    "C03": {"slices": ["proof"], "tally": ["C03"], "title": "BBS proof completeness",
+            "level_text": MC_TEXT + "slice `proof`: every message vector up to MaxL, EVERY disclosure subset (also as unsorted / duplicated / absent index lists), header and presentation header absent/empty/non-empty, round trip; the proof length 272 + 32 U is checked on the real proofs, which are produced with production randomness and recomputed from the recorded draws."},
+    "C04": {"slices": ["proof_adv"], "tally": ["C04"], "title": "BBS proof soundness",
+            "level_text": MC_TEXT + "slice `proof_adv`: every single edit of the verifier's statement (message, index, pair added/removed, lists of different lengths, duplicate index with forged message, header, presentation header, key, suite, interface), every tampered field and +-1 scalar of the encoding (with bit flips), and the attacker's family of proofs assembled from public data (identity / multiples of the verifier's Bv / unrelated points, responses solved) through from_bytes and through serde."},
+    "C05": {"slices": ["blind"], "tally": ["C05"], "title": "Blind BBS completeness",
+            "level_text": MC_TEXT + "slice `blind`: (L, M) up to the bounds, with and without commitment (and commitment to zero messages), ALL pairs of disclosure choices, absent/empty presentations, round trips; blind signature octets equal the specification's."},
+    "C06": {"slices": ["blind_adv"], "tally": ["C06"], "title": "Blind BBS soundness",
+            "level_text": MC_TEXT + "slice `blind_adv`: tampered / truncated / extended / cross-suite commitments shown to the signer (with bit flips of the commitment octets), every single edit of the inputs of verify_blind_sign and blind_proof_verify including L +- 1, aliasing of committed and signer messages, duplicate indexes with forged messages, plain-interface verification."},
+    "C12": {"slices": ["update"], "tally": ["C12", "C02", "C01"], "title": "Signature update over any history",
+            "level_text": MC_TEXT + "slice `update`: every history of up to Depth updates at every position with every new value, with correct and wrong old values, out-of-range positions, then verification against the intended current vector and every earlier vector; updated signature octets equal the reference's B(msgs)/(sk+e)."},
 }
-
 
 def seed():
     try:
@@ -198,7 +227,7 @@ def run_slice(name, tier, prop):
 def replay(cases, tier, prop, name, flip):
     rep = os.path.join(BUILD, "rep_%s_%s_%s.json" % (prop, name, tier))
     chunks = "1,32,255,256" if tier == "quick" else "1,31,32,33,255,256,257,1024"
-    sh([ZKV, "replay", cases, rep, "--flip-stride", str(flip), "--threads", "12", "--chunks", chunks],
+    sh([ZKV, "replay", cases, rep, "--flip-stride", str(flip), "--threads", "16", "--chunks", chunks],
        env={"ZKV_LAYOUTS": LAYOUTS, "VERIF_SEED": str(seed())}, timeout=6000)
     return json.load(open(rep))
 
